@@ -55,7 +55,11 @@ const (
 	// directory outside the target ("../x") is refused correctly and stays in the generator.
 	classUnpackDotDotName = "c06.unpack_dotdot_name"
 	// a link entry whose target is lexically inside the image root but, followed through another
-	// link entry of the same image, leaves the target directory (unpack checks targets lexically)
+	// link entry of the same image, leaves the target directory (unpack checks targets lexically).
+	// The finding explains directories and symlinks created outside the target and symlinks left
+	// inside it that resolve outside; it does not explain a regular file written outside (the
+	// resolved-parent check before WriteFile holds on the unchanged tree). Cases of the class are
+	// therefore not only rewritten: see imgCase.KnownPhys.
 	classUnpackLinkPhysical = "c06.unpack_link_physical_escape"
 )
 
@@ -601,7 +605,7 @@ var (
 	selfSub1Targets = []string{"..", "..", "../", "../.", "./..", "../x/.."}
 	selfSub2Targets = []string{"../..", "../..", "../../.", "..//..", "../../x/.."}
 	climbNames      = []string{"out", "esc", "up2"}
-	climbSuffixes   = []string{"", "", "", "", "outside", "target-evil", "tmp", "in", "5", "x", "hold"}
+	climbSuffixes   = []string{"", "", "", "", "", "", "", "outside", "target-evil", "tmp", "in", "5", "x", "hold"}
 	belowLeafs      = []string{"pwned.txt", "pwned.txt", "pwned.txt", "new.cfg", "canary.txt", "keep", "secret.txt"}
 	nameStyles      = []string{"plain", "plain", "plain", "dot_slash", "dot_slash", "abs", "inner_double_slash", "inner_dot"}
 )
@@ -735,10 +739,10 @@ func genSelfRefFamily(t *rapid.T, c *imgCase) {
 			maxDD = gain
 		}
 		dd := maxDD
-		switch rapid.IntRange(0, 7).Draw(t, "sr_dd") {
+		switch rapid.IntRange(0, 11).Draw(t, "sr_dd") {
 		case 0:
 			dd = 0 // harmless
-		case 1, 2:
+		case 1, 2, 3:
 			dd = rapid.IntRange(1, maxDD).Draw(t, "sr_dd_n")
 		}
 		for j := 0; j < dd; j++ {
@@ -746,7 +750,7 @@ func genSelfRefFamily(t *rapid.T, c *imgCase) {
 		}
 		// one of the climbs between the hops instead of after them (lexically equivalent; on disk
 		// the later hops then start from above the unpack directory and find nothing)
-		if dd > 0 && len(segs)-dirPrefix-dd >= 2 && rapid.IntRange(0, 5).Draw(t, "sr_interleave") == 0 {
+		if dd > 0 && len(segs)-dirPrefix-dd >= 2 && rapid.IntRange(0, 7).Draw(t, "sr_interleave") == 0 {
 			at := dirPrefix + 1
 			segs = append(segs[:at], append([]string{".."}, segs[at:len(segs)-1]...)...)
 		}
@@ -785,7 +789,7 @@ func genSelfRefFamily(t *rapid.T, c *imgCase) {
 	if needX && rapid.IntRange(0, 7).Draw(t, "sr_no_anchor") != 0 {
 		items = append(items, tarEntry{Name: "x/keep.txt", Type: "reg", Body: "x"})
 	}
-	switch rapid.SampledFrom([]string{"natural", "natural", "natural", "natural", "natural", "below_first", "reversed"}).Draw(t, "sr_order") {
+	switch rapid.SampledFrom([]string{"natural", "natural", "natural", "natural", "natural", "natural", "natural", "below_first", "reversed"}).Draw(t, "sr_order") {
 	case "natural":
 		items = append(append(items, links...), below...)
 	case "below_first":
@@ -982,9 +986,16 @@ func genImgCase(t *rapid.T) imgCase {
 		genEmptyShape(t, &c)
 		return finishImgCase(col, c, keepPhys)
 	}
-	// the self-referential-link family: one case in four, always kept in the known class, placed
-	// before, between or after at most four other entries
-	if rapid.IntRange(0, 3).Draw(t, "selfref_family") == 0 {
+	// the self-referential-link family: one case in three, always kept in the known class, placed
+	// before, between or after at most four other entries; seven of eight of these cases ask for all
+	// files and keep the links as links (the configuration in which a link can lead anywhere)
+	if rapid.IntRange(0, 2).Draw(t, "selfref_family") == 0 {
+		if rapid.IntRange(0, 7).Draw(t, "selfref_all_files") != 0 {
+			c.Requirer = ""
+		}
+		if c.SymRes != "" && rapid.IntRange(0, 7).Draw(t, "selfref_retain") != 0 {
+			c.SymRes = "retain"
+		}
 		n := rapid.IntRange(0, 4).Draw(t, "entries")
 		famAt := rapid.IntRange(0, n).Draw(t, "selfref_family_at")
 		for i := 0; i <= n; i++ {
@@ -1296,7 +1307,7 @@ func nonTrivial(c imgCase) (bool, []string) {
 	if c.Requirer != "" {
 		classes = append(classes, "requirer:"+c.Requirer)
 	}
-	return nt, append(classes, sharedTargetClasses(c)...)
+	return nt, append(append(classes, sharedTargetClasses(c)...), selfRefClasses(c)...)
 }
 
 func (c imgCase) hasLinkEntry() bool {
@@ -1444,7 +1455,11 @@ func sharedTargetClasses(c imgCase) []string {
 // reachable before it and reaches at most (".." segments of its target) above that; the entry
 // finally written adds the ".." segments of its own name. The generator stays at or below
 // 7*12 + 4 = 88 without a shared-target group (an iteration adds at most one link with 4+4 or a
-// link with 0+4 and a link written through it with 4+4) and 5*12 + 4*3 + 4 = 76 with one; the
+// link with 0+4 and a link written through it with 4+4) and 5*12 + 4*3 + 4 = 76 with one; a case
+// with the self-referential-link family has at most four other entries (4*8, none of them a
+// write-through pair) and the family adds at most 27: 32 + 27 + 4 = 63 (self-referential links add
+// nothing of their own: a hop through "t -> ." ends where it started, and every ".." that follows
+// is counted with the link that carries it); the
 // shapes of which nothing is left (genEmptyShape) have at most five entries with at most 3+3, i.e.
 // 5*6 + 3 = 33. The target lies at least unjailedFn + len(nest) + 1 = 103 levels below the sandbox
 // directory (its empty ancestors add to that); the spelling of the directory argument never
@@ -1700,8 +1715,23 @@ func propImage(c imgCase) (o ev.Outcome, err error) {
 				}
 			}
 		}
-		if d := sandbox.Diff(before, after, func(p string) bool { return sandbox.Under(p, trel) }); len(d) > 0 {
-			return o, sideEffectErr(c, fmt.Sprintf("the caller's target %s, passed as %q", trel, dirArg), d)
+		var d []string
+		discounted := map[string]bool{}
+		for _, ch := range sandbox.Changes(before, after, func(p string) bool { return sandbox.Under(p, trel) }) {
+			// a case of the known class c06.unpack_link_physical_escape: that finding explains
+			// directories and symlinks created outside the target, and nothing else
+			if c.KnownPhys && ch.Kind == "created" && (ch.After.Type == "dir" || ch.After.Type == "symlink") {
+				discounted["known_effect_discounted:"+ch.After.Type+"_created_outside"] = true
+				continue
+			}
+			d = append(d, ch.String())
+		}
+		if len(d) > 0 {
+			designated := fmt.Sprintf("the caller's target %s, passed as %q", trel, dirArg)
+			if c.KnownPhys {
+				designated += "; directories and symlinks created outside it are not listed: known finding " + classUnpackLinkPhysical
+			}
+			return o, sideEffectErr(c, designated, d)
 		}
 		var esc []string
 		if left != "target_removed" {
@@ -1710,8 +1740,23 @@ func propImage(c imgCase) (o ev.Outcome, err error) {
 				return o, fmt.Errorf("harness: %w", err)
 			}
 		}
+		if len(esc) > 0 && c.KnownPhys {
+			discounted["known_effect_discounted:escaping_symlink_in_target"] = true
+			esc = nil
+		}
 		if len(esc) > 0 {
 			return o, fmt.Errorf("after %s a symlink left inside the target directory resolves to a location outside it:\n  %s", c.Loader, strings.Join(esc, "\n  "))
+		}
+		if c.KnownPhys {
+			o.Classes = append(o.Classes, "known_class_case:link_physical_escape")
+			if len(discounted) > 0 {
+				col.Excluded(classUnpackLinkPhysical)
+				o.Classes = append(o.Classes, "known_class_case:link_physical_escape_with_discounted_effect")
+			}
+			for k := range discounted {
+				o.Classes = append(o.Classes, k)
+			}
+			o.Classes = append(o.Classes, refusedWriteClasses(c, l, after, rel)...)
 		}
 	case "v1image", "tarball":
 		var im *image.Image
@@ -1768,6 +1813,170 @@ func propImage(c imgCase) (o ev.Outcome, err error) {
 		}
 	}
 	return o, nil
+}
+
+// refusedWriteClasses looks, after an unpack, at the regular entries of a case whose name passes
+// below a link entry: where the name leads outside the target on disk (own resolver) and no file
+// is there, the loader has refused to write a regular file through an escaping link. Evidence only.
+func refusedWriteClasses(c imgCase, l layout, after sandbox.Snapshot, rel func(string) string) []string {
+	set := map[string]bool{}
+	names := linkNames(c)
+	for _, es := range c.Layers {
+		for _, e := range es {
+			if e.Type != "reg" || strings.Contains(e.Name, "${") {
+				continue
+			}
+			cn := strings.TrimPrefix(path.Clean(e.Name), "/")
+			if cn == ".." || strings.HasPrefix(cn, "../") {
+				continue
+			}
+			depth, lk := 0, ""
+			for d, k := path.Dir(cn), 1; d != "." && d != "/" && d != ""; d, k = path.Dir(d), k+1 {
+				if names[d] {
+					depth, lk = k, d
+				}
+			}
+			if lk == "" {
+				continue
+			}
+			loc, ok := sandbox.Resolve(filepath.Join(l.T, cn))
+			if !ok || sandbox.Inside(loc, l.T) {
+				continue
+			}
+			what := "refused"
+			if ent, ok := after[rel(loc)]; ok {
+				what = "existing_" + ent.Type
+			}
+			set["regular_through_escaping_link_"+what] = true
+			set[fmt.Sprintf("regular_through_escaping_link_%s:depth%d", what, depth)] = true
+			set[fmt.Sprintf("regular_through_escaping_link_%s:depth%d:%s", what, depth, nameStyleOf(e.Name))] = true
+		}
+	}
+	out := make([]string, 0, len(set))
+	for k := range set {
+		out = append(out, k)
+	}
+	sort.Strings(out)
+	return out
+}
+
+// selfRefClasses labels the self-referential links of a case (structurally, so that replayed cases
+// are labelled too): a self link is a link entry whose relative target, read lexically from the
+// link's directory, is that directory or one above it inside the image, without passing through
+// another link entry; a climb link is a link entry whose relative target passes through a link entry,
+// continues with "..", and is lexically inside the image (what TargetOutsideRoot accepts). Every
+// label is counted once per case.
+func selfRefClasses(c imgCase) []string {
+	set := map[string]bool{}
+	names := linkNames(c)
+	type lk struct {
+		name string
+		pos  int
+	}
+	var climbs []lk
+	pos := 0
+	var regs []struct {
+		name, raw string
+		pos       int
+	}
+	for _, li := range streamLayers(c.Loader, len(c.Layers)) {
+		for _, e := range c.Layers[li] {
+			pos++
+			if strings.Contains(e.Name, "${") {
+				continue
+			}
+			cn := strings.TrimPrefix(path.Clean(e.Name), "/")
+			if cn == ".." || strings.HasPrefix(cn, "../") || cn == "." {
+				continue
+			}
+			if e.Type == "reg" {
+				regs = append(regs, struct {
+					name, raw string
+					pos       int
+				}{cn, e.Name, pos})
+				continue
+			}
+			if (e.Type != "sym" && e.Type != "hard") || strings.Contains(e.Link, "${") || strings.HasPrefix(e.Link, "/") || e.Link == "" {
+				continue
+			}
+			dir := path.Dir(cn)
+			res := path.Join(dir, e.Link)
+			inside := res != ".." && !strings.HasPrefix(res, "../")
+			// does the target pass through a link entry, and is there a ".." after that?
+			var cur []string
+			if dir != "." {
+				cur = strings.Split(dir, "/")
+			}
+			through, climbsAfter, chain := false, false, false
+			for _, sg := range strings.Split(e.Link, "/") {
+				switch sg {
+				case "", ".":
+					continue
+				case "..":
+					if through {
+						climbsAfter = true
+					}
+					if len(cur) > 0 {
+						cur = cur[:len(cur)-1]
+					}
+					continue
+				}
+				cur = append(cur, sg)
+				if p := strings.Join(cur, "/"); names[p] && p != cn {
+					through = true
+					for _, k := range climbs {
+						chain = chain || k.name == p
+					}
+				}
+			}
+			switch {
+			case !inside:
+			case through && climbsAfter:
+				set["selfref_climb_link"] = true
+				set["selfref_climb_link:"+e.Type] = true
+				set[fmt.Sprintf("selfref_climb_link:link_depth%d", strings.Count(cn, "/")+1)] = true
+				set["selfref_climb_link:name_"+nameStyleOf(e.Name)] = true
+				if chain {
+					set["selfref_climb_link_through_earlier_climb_link"] = true
+				}
+				climbs = append(climbs, lk{cn, pos})
+			case !through && (res == "." || dir == res || strings.HasPrefix(dir, res+"/")):
+				set["selfref_self_link"] = true
+				switch {
+				case !strings.Contains(e.Link, ".."):
+					set["selfref_self_link:dot"] = true
+				case res == dir:
+					set["selfref_self_link:x_dotdot"] = true
+				default:
+					set["selfref_self_link:to_ancestor"] = true
+				}
+			case through && (res == "." || dir == res || strings.HasPrefix(dir, res+"/")):
+				set["selfref_self_link:alias"] = true
+			}
+		}
+	}
+	for _, r := range regs {
+		for _, k := range climbs {
+			if !strings.HasPrefix(r.name, k.name+"/") {
+				continue
+			}
+			depth := strings.Count(strings.TrimPrefix(r.name, k.name+"/"), "/") + 1
+			when := "later"
+			if r.pos < k.pos {
+				when = "earlier"
+			}
+			set["selfref_regular_below_climb_link"] = true
+			set[fmt.Sprintf("selfref_regular_below_climb_link:depth%d", depth)] = true
+			set[fmt.Sprintf("selfref_regular_below_climb_link:depth%d:%s", depth, nameStyleOf(r.raw))] = true
+			set["selfref_regular_below_climb_link:"+when] = true
+		}
+	}
+	out := make([]string, 0, len(set))
+	for k := range set {
+		out = append(out, k)
+	}
+	sort.Strings(out)
+	return out
 }
 
 func sideEffectErr(c imgCase, designated string, d []string) error {
